@@ -2,7 +2,7 @@
    Statements only; every proof is `exact <lemma>`.  Parameters as in C04.v. *)
 From Coq Require Import List ZArith Bool.
 From Coq.Init Require Import Byte.
-From Sif Require Import Bytes Store Format Image Integrity IntegFacts C04Facts C07Facts C16Facts IntegExamples.
+From Sif Require Import Bytes Store Format Image Integrity IntegFacts C04Facts C05Facts C07Facts C16Facts LegacyCover IntegExamples.
 Import ListNotations.
 Local Open Scope Z_scope.
 
@@ -35,6 +35,34 @@ Theorem C16_legacy_acceptance :
     verify_legacy_sig hash open_dsse open_pgp st ods errid sig kind =
       mkVR (d_id sig) (map (fun p => d_id (fst p)) ods) (op_keys o) (op_entity o) None.
 Proof. exact verify_legacy_sig_sound. Qed.
+
+(* what a successful legacy request covers.  With no narrowing
+   (OptVerifyLegacy alone) every group present in the image has legacy
+   signatures, and every one of them was examined under an available key and
+   accepted over exactly the group's members; objects outside every group are
+   signatures.  (`strict`: the callback does not ask to ignore errors.) *)
+Theorem C16_legacy_request_covers_every_group :
+  forall hash classify is_legacy open_dsse open_pgp parse_md has_dsse_keys has_pgp_keys m st ts rs,
+  new_verifier m legacy_opts = inl ts ->
+  verify hash classify is_legacy open_dsse open_pgp parse_md has_dsse_keys has_pgp_keys m st strict ts = (rs, None) ->
+  ungrouped_are_signatures m /\ group_ids m <> [] /\
+  forall g, In g (group_ids m) ->
+    exists ods sigs, group_objects m g = inl ods /\
+                     group_signatures is_legacy m st g true = inl sigs /\
+                     legacy_covered hash classify open_dsse open_pgp has_dsse_keys has_pgp_keys st ods sigs.
+Proof. exact legacy_verification_covers. Qed.
+
+(* OptVerifyLegacyAll: every live grouped object that is not a signature has
+   signatures linked to it, each examined and accepted over that object alone *)
+Theorem C16_legacy_all_request_covers_every_grouped_object :
+  forall hash classify is_legacy open_dsse open_pgp parse_md has_dsse_keys has_pgp_keys m st ts rs d,
+  new_verifier m legacy_all_opts = inl ts ->
+  verify hash classify is_legacy open_dsse open_pgp parse_md has_dsse_keys has_pgp_keys m st strict ts = (rs, None) ->
+  In d (m_rds m) -> d_used d = true -> d_type d <> DataSignature -> group_of_raw (d_group d) <> 0 ->
+  exists sigs, object_signatures m (d_id d) = inl sigs /\
+               legacy_covered hash classify open_dsse open_pgp has_dsse_keys has_pgp_keys st
+                              [(d, relative_id (m_minids m) d)] sigs.
+Proof. exact legacy_all_verification_covers. Qed.
 
 (* a named object: its content is byte for byte what the signed digest is of *)
 Theorem C16_legacy_object_sound :
@@ -76,5 +104,7 @@ Print Assumptions C16_tasks_examine_only_the_requested_kind.
 Print Assumptions C16_legacy_task_rejects_current_payload.
 Print Assumptions C16_legacy_acceptance.
 Print Assumptions C16_legacy_object_sound.
+Print Assumptions C16_legacy_request_covers_every_group.
+Print Assumptions C16_legacy_all_request_covers_every_grouped_object.
 Print Assumptions C16_legacy_group_sound_partial.
 Print Assumptions C16_legacy_group_boundary_refuted.
